@@ -216,7 +216,8 @@ class Check(DiffCheck):
 
     def build_impl(self):
         e2 = e2lib.build_impl(self.id, out=os.path.join(BUILD, 'bin', 'C04_e2'))
-        heap, log = cxx_build(self.id, ['harness/C04/heap_harness.cpp'], out=os.path.join(BUILD, 'bin', 'C04_heap'), libphoton=True)
+        heap, log = cxx_build(self.id, ['harness/C04/heap_harness.cpp'], out=os.path.join(BUILD, 'bin', 'C04_heap'),
+                               extra='-ffunction-sections -fdata-sections -Wl,--gc-sections')
         if not heap: raise RuntimeError(log[-3000:])
         disp = os.path.join(BUILD, 'bin', 'C04_impl')
         open(disp, 'w').write('#!/bin/sh\nexec python3 %s %s %s "$1"\n' % (os.path.join(VERIF, 'harness', 'C04', 'dispatch.py'), heap, e2))
